@@ -2,23 +2,25 @@
 
 // Lock-discipline sweep over the message handlers and client entry points of package rpc (C08/C09:
 // "never deadlocks", "no internal lock stays held").  PARTIAL contracts: for each function only the
-// lock typestate obligations are generated - every Lock is of a mutex not already held by this
+// lock typestate obligations (and the index, nil-map, type-assertion and explicit-panic obligations) are generated - every Lock is of a mutex not already held by this
 // call, every Unlock is of a held mutex, and on every return every mutex is as on entry.
 package rpc
 
-//@ option immutable:answer.c immutable:embargo.c
+//@ option immutable:answer.c immutable:embargo.c immutable:Conn.answers
 
 //@ func Conn.handleBootstrap -> err
 //@   props C08 C09
+//@   -- (the answer table exists from NewConn on)
+//@   requires c.answers != nil
 //@   locktypestate
-//@   partial lock post pre:Conn.tryLockSender pre:Conn.lockSender pre:Conn.unlockSender
+//@   partial lock nilmap bounds typeassert panic post pre:Conn.tryLockSender pre:Conn.lockSender pre:Conn.unlockSender
 //@   requires c != nil && nolocks() && !sending(c)
 //@   ensures sender: !sending(c)
 
 //@ func Conn.handleReturn -> err
 //@   props C08 C09
 //@   locktypestate
-//@   partial lock post pre:Conn.tryLockSender pre:Conn.lockSender pre:Conn.unlockSender
+//@   partial lock nilmap bounds typeassert panic post pre:Conn.tryLockSender pre:Conn.lockSender pre:Conn.unlockSender
 //@   requires c != nil && nolocks() && !sending(c)
 //@   loop 0 "range pr.disembargoes"
 //@     invariant nolocks()
@@ -27,75 +29,82 @@ package rpc
 //@ func Conn.handleFinish -> err
 //@   props C08 C09
 //@   locktypestate
-//@   partial lock post pre:Conn.tryLockSender pre:Conn.lockSender pre:Conn.unlockSender
+//@   partial lock nilmap bounds typeassert panic post pre:Conn.tryLockSender pre:Conn.lockSender pre:Conn.unlockSender
 //@   requires c != nil && nolocks() && !sending(c)
 //@   ensures sender: !sending(c)
 
 //@ func Conn.handleRelease -> err
 //@   props C08 C09
 //@   locktypestate
-//@   partial lock post pre:Conn.tryLockSender pre:Conn.lockSender pre:Conn.unlockSender
+//@   partial lock nilmap bounds typeassert panic post pre:Conn.tryLockSender pre:Conn.lockSender pre:Conn.unlockSender
 //@   requires c != nil && nolocks() && !sending(c)
 //@   ensures sender: !sending(c)
 
 //@ func Conn.handleDisembargo -> err
 //@   props C08 C09
 //@   locktypestate
-//@   partial lock post pre:Conn.tryLockSender pre:Conn.lockSender pre:Conn.unlockSender
+//@   partial lock nilmap bounds typeassert panic post pre:Conn.tryLockSender pre:Conn.lockSender pre:Conn.unlockSender
 //@   requires c != nil && nolocks() && !sending(c)
 //@   ensures sender: !sending(c)
 
 //@ func Conn.handleUnknownMessage -> err
 //@   props C08 C09
 //@   locktypestate
-//@   partial lock post pre:Conn.tryLockSender pre:Conn.lockSender pre:Conn.unlockSender
+//@   partial lock nilmap bounds typeassert panic post pre:Conn.tryLockSender pre:Conn.lockSender pre:Conn.unlockSender
 //@   requires c != nil && nolocks() && !sending(c)
 //@   ensures sender: !sending(c)
 
 //@ func Conn.Bootstrap -> bc
 //@   props C09
 //@   locktypestate
-//@   partial lock post pre:Conn.tryLockSender pre:Conn.lockSender pre:Conn.unlockSender
+//@   partial lock nilmap bounds typeassert panic post pre:Conn.tryLockSender pre:Conn.lockSender pre:Conn.unlockSender
 //@   requires c != nil && nolocks() && !sending(c)
 //@   ensures sender: !sending(c)
 
 //@ func question.handleCancel
 //@   props C09
 //@   locktypestate
-//@   partial lock post pre:Conn.tryLockSender pre:Conn.lockSender pre:Conn.unlockSender
+//@   partial lock nilmap bounds typeassert panic post pre:Conn.tryLockSender pre:Conn.lockSender pre:Conn.unlockSender
 //@   requires q != nil && q.c != nil && nolocks() && !sending(q.c)
 //@   ensures sender: !sending(q.c)
 
 //@ func question.PipelineRecv -> pc
 //@   props C09
 //@   locktypestate
-//@   partial lock post pre:Conn.tryLockSender pre:Conn.lockSender pre:Conn.unlockSender
+//@   partial lock nilmap bounds typeassert panic post pre:Conn.tryLockSender pre:Conn.lockSender pre:Conn.unlockSender
 //@   requires q != nil && q.c != nil && nolocks() && !sending(q.c)
 //@   ensures sender: !sending(q.c)
 
 //@ func importClient.Recv -> pc
 //@   props C09
 //@   locktypestate
-//@   partial lock post pre:Conn.tryLockSender pre:Conn.lockSender pre:Conn.unlockSender
+//@   partial lock nilmap bounds typeassert panic post pre:Conn.tryLockSender pre:Conn.lockSender pre:Conn.unlockSender
 //@   requires ic != nil && ic.c != nil && nolocks() && !sending(ic.c)
 //@   ensures sender: !sending(ic.c)
 
 //@ func answer.Return
 //@   props C08 C09
 //@   locktypestate
-//@   partial lock post pre:Conn.tryLockSender pre:Conn.lockSender pre:Conn.unlockSender
+//@   partial lock nilmap bounds typeassert panic post pre:Conn.tryLockSender pre:Conn.lockSender pre:Conn.unlockSender
 //@   requires ans != nil && ans.c != nil && nolocks() && !sending(ans.c)
 //@   ensures sender: !sending(ans.c)
 
 //@ func answer.AllocResults -> s, err
 //@   props C09
 //@   locktypestate
-//@   partial lock post pre:Conn.tryLockSender pre:Conn.lockSender pre:Conn.unlockSender
+//@   partial lock nilmap bounds typeassert panic post pre:Conn.tryLockSender pre:Conn.lockSender pre:Conn.unlockSender
 //@   requires ans != nil && ans.c != nil && nolocks() && !sending(ans.c)
 //@   ensures sender: !sending(ans.c)
 
 //@ func embargo.lift
 //@   props C09
 //@   locktypestate
-//@   partial lock post pre:Conn.tryLockSender pre:Conn.lockSender pre:Conn.unlockSender
+//@   partial lock nilmap bounds typeassert panic post pre:Conn.tryLockSender pre:Conn.lockSender pre:Conn.unlockSender
 //@   requires e != nil && nolocks()
+
+// The question table grows in step with the question id generator: a new question either extends
+// the table by one or reuses the slot of a finished one - never an index outside the table.
+//@ func Conn.newQuestion -> q
+//@   props C06
+//@   partial bounds
+//@   requires c != nil && genOK(&c.questionID) && c.questionID.i < 1<<32-1 && M(len(c.questions)) == M(c.questionID.i)
